@@ -43,12 +43,20 @@ struct SModel { std::multiset<long> s; bool multi;
         case K_INS: { bool fresh = multi || !s.count(o.arg); if (chk && (o.res != 0) != fresh) return false; if (fresh) s.insert(o.arg); return true; }
         case K_FIND: return !chk || (o.res != 0) == (s.count(o.arg) > 0);
         case K_COUNT: return !chk || (long)s.count(o.arg) == o.res; } return false; } };
+template <class C> C* make_container(size_t buckets, std::true_type) { return new C(); }
+template <class C> C* make_container(size_t buckets, std::false_type) { return buckets ? new C(buckets) : new C(); }
 struct Trav { int thread; unsigned long t0, t1; std::vector<int> keys; };
 template <class C, bool MULTI, bool ORDERED> void run() {
     typedef std::integral_constant<bool, IsMap<C>::value> ismap;
-    C c; SModel m; m.multi = MULTI; Log log; std::vector<Trav> travs;
-    long pre = vf_param_int("pre", 0); for (long i = 0; i < pre; i++) { do_insert(c, (int)(100 + i), 0, ismap()); m.s.insert(100 + i); }
-    for (const char* p = vf_param("prekeys", ""); *p;) { long k = strtol(p, (char**)&p, 10); do_insert(c, (int)k, 0, ismap()); m.s.insert(k); while (*p == ',') p++; }
+    // -p buckets=N (unordered kinds): the container is constructed with an explicit initial bucket count (1, 2, 4: below the default of 8)
+    // -p keysfirst=1: prekeys are inserted BEFORE the pre filler keys, i.e. while the table still has its initial size
+    C* cp = make_container<C>((size_t)vf_param_int("buckets", 0), std::integral_constant<bool, ORDERED>()); C& c = *cp; SModel m; m.multi = MULTI; Log log; std::vector<Trav> travs;
+    long pre = vf_param_int("pre", 0); bool keysfirst = vf_param_int("keysfirst", 0) != 0;
+    auto add_prekeys = [&] { for (const char* p = vf_param("prekeys", ""); *p;) { long k = strtol(p, (char**)&p, 10); do_insert(c, (int)k, 0, ismap()); m.s.insert(k); while (*p == ',') p++; } };
+    if (keysfirst) add_prekeys();
+    long pbase = vf_param_int("prebase", 100), pstride = vf_param_int("prestride", 1);   // e.g. 64/64: all filler keys fall into bucket 0 of every table size up to 64, so growth touches no other bucket
+    for (long i = 0; i < pre; i++) { do_insert(c, (int)(pbase + i * pstride), 0, ismap()); m.s.insert(pbase + i * pstride); }
+    if (!keysfirst) add_prekeys();
     std::multiset<long> initial = m.s;
     std::vector<std::string> progs(1); for (const char* p = vf_param("prog", "I7|I7|T"); *p; p++) { if (*p == '|') progs.emplace_back(); else progs.back() += *p; }
     // H<k>: insert(node_type&&) of a node that was extracted, before the window, from another container of the same type in which it was
